@@ -1135,7 +1135,7 @@ fn prep_dest(ctx: &Ctx, dest: Dest, by: &By) -> PathBuf {
         std::fs::create_dir_all(&p).expect("prepare destination directory");
         return p;
     }
-    if dest == Dest::LinkOfContent || dest == Dest::ExistingSuperset || dest == Dest::SymlinkToContent {
+    if dest == Dest::LinkOfContent || dest == Dest::ExistingSuperset || dest == Dest::SymlinkToContent || dest == Dest::ExistingSameLength {
         // found with the harness's own reader of the format, not through the library
         let cp = match by {
             By::Addr(a) => Some(ctx.content_path(*a)),
@@ -1155,15 +1155,25 @@ fn prep_dest(ctx: &Ctx, dest: Dest, by: &By) -> PathBuf {
                     Dest::SymlinkToContent => {
                         let _ = std::os::unix::fs::symlink(&cp, &p);
                     }
+                    Dest::ExistingSameLength => {
+                        let n = std::fs::metadata(&cp).map(|m| m.len() as usize).unwrap_or(0);
+                        let _ = std::fs::write(&p, vec![b'#'; n]);
+                    }
                     _ => {
                         let mut b = std::fs::read(&cp).unwrap_or_default();
                         b.extend_from_slice(SUPERSET_TAIL);
                         let _ = std::fs::write(&p, b);
                     }
                 }
+            } else if dest == Dest::LinkOfContent && std::fs::metadata(&cp).map(|m| m.is_file()).unwrap_or(false) {
+                // a linked entry (the content path is a symlink to the user's file): the
+                // destination is another NAME of that file (a hard link of it)
+                if let Ok(real) = std::fs::canonicalize(&cp) {
+                    let _ = std::fs::hard_link(&real, &p);
+                }
             }
         }
-        if !done && dest == Dest::ExistingSuperset {
+        if !done && (dest == Dest::ExistingSuperset || dest == Dest::ExistingSameLength) {
             std::fs::write(&p, PREEXISTING).expect("prepare destination");
         }
     }
@@ -1598,6 +1608,18 @@ fn link_opts(l: &LinkSpec, data: &[u8]) -> cacache::WriteOpts {
     o
 }
 
+/// In `LinkSpec::pre_reads`: not a read — the process changes its working directory at this
+/// point, between opening the linker and its commit (driver processes only; a no-op elsewhere).
+pub const LINK_CHDIR: usize = usize::MAX - 5;
+
+fn link_chdir(ctx: &Ctx) {
+    if ALLOW_CHDIR.load(Ordering::SeqCst) {
+        let dir = ctx.scratch.join("cwd").join("elsewhere");
+        let _ = std::fs::create_dir_all(&dir);
+        let _ = std::env::set_current_dir(&dir);
+    }
+}
+
 fn do_link_sync(ctx: &Ctx, l: &LinkSpec) -> Out {
     let data = ctx.blob(l.blob);
     let target = link_target_arg(ctx, l);
@@ -1616,6 +1638,10 @@ fn do_link_sync(ctx: &Ctx, l: &LinkSpec) -> Out {
             Err(e) => Err(e),
             Ok(mut lk) => {
                 for &n in &l.pre_reads {
+                    if n == LINK_CHDIR {
+                        link_chdir(ctx);
+                        continue;
+                    }
                     if n == usize::MAX {
                         let mut all = Vec::with_capacity(16);
                         if let Err(e) = lk.read_to_end(&mut all) {
@@ -1671,6 +1697,10 @@ async fn do_link_async(ctx: &Ctx<'_>, l: &LinkSpec) -> Out {
             Err(e) => Err(e),
             Ok(mut lk) => {
                 for &n in &l.pre_reads {
+                    if n == LINK_CHDIR {
+                        link_chdir(ctx);
+                        continue;
+                    }
                     if n == usize::MAX {
                         // the runtime's own read_to_end (it hands over partly filled buffers)
                         let mut all = Vec::with_capacity(16);
